@@ -46,3 +46,12 @@ Definition same_support (grid : list Q) (ct : qcontent) (rows : list (list (opti
 (* complete data: both encodings are the dense value matrix *)
 Definition dense_ok (grid : list Q) (ct : qcontent) (dense_rows : list (list Q)) : bool :=
   meq (dense_values ct) dense_rows && rows_eqb (enc_nan Qeq_bool grid ct) (map (map Some) dense_rows).
+
+(* F14: the harness lays the long table out on the grid for the real P-spline fit; both layouts
+   (correct: pooled mean / count; defect: last value / weight) must be the model's *)
+Definition layout_eqb (a b : list (Q * Q)) : bool :=
+  all2 (fun p q => qeq (fst p) (fst q) && qeq (snd p) (snd q)) a b.
+Definition layout_close (tol : Q) (a b : list (Q * Q)) : bool :=
+  all2 (fun p q => qclose tol (fst p) (fst q) && qeq (snd p) (snd q)) a b.
+Definition layouts_ok (tol : Q) (grid : list Q) (ct : qcontent) (pooled last : list (Q * Q)) : bool :=
+  layout_close tol (format_pooled Qeq_bool grid ct) pooled && layout_eqb (format_last Qeq_bool grid ct) last.
